@@ -198,7 +198,7 @@ def rel_uri(uri, dirpath):
     return uri[len(pre):] if uri.startswith(pre) else uri
 
 
-def evaluate(docs, lexs, name, res, tally):
+def evaluate(docs, lexs, name, res, tally, generic_only=False):
     """docs: {file name: Doc}; lexs: {file name: lexeme table}; name: the opened file; res: script result"""
     divs = []
     dirpath = res.get("dir", "")
@@ -238,7 +238,7 @@ def evaluate(docs, lexs, name, res, tally):
         tally["ranges"] += 1
         for sig, what in check_range(doc, r, "diagnostic %s" % (dg["code"] or "syntax")):
             add("diagnostic:" + sig, what + " (%s)" % dg["msg"][:60])
-        if dg["code"] == "UNDECLARED_COMMODITY" and dg["sl"] < len(lex):
+        if dg["code"] == "UNDECLARED_COMMODITY" and dg["sl"] < len(lex) and not generic_only:
             spans = {(lx["c0"], lx["c1"]) for lx in lex[dg["sl"]] if lx["k"] == "commodity"} | \
                     {(lx["c0"] + 1, lx["c1"] - 1) for lx in lex[dg["sl"]] if lx["k"] == "commodity" and lx["t"].startswith('"')}
             if dg["sl"] == dg["el"] and (dg["sc"], dg["ec"]) not in spans:
@@ -252,7 +252,7 @@ def evaluate(docs, lexs, name, res, tally):
                 continue
             where = "%s at %d:%d" % (k, l, c)
             generic(k, reply, where)
-            if l >= len(lex):
+            if l >= len(lex) or generic_only:
                 continue
             line_spans = spans_of_line(lex[l])
             if k in ("hover", "prepareRename"):
@@ -299,6 +299,8 @@ def evaluate(docs, lexs, name, res, tally):
         if reply is None:
             continue
         generic(kind, reply, kind)
+        if generic_only:
+            continue
         if kind == "documentLink":
             for ln in reply:
                 r = ln["range"]
@@ -427,6 +429,19 @@ def main(args):
             for ws in (False, True):
                 for f in c["files"]:
                     items.append({"kind": "workspace", "files": files, "lex": lex, "open": f["name"], "ws": ws})
+    # damaged journals (Damage.tla): no lexeme table is claimed for them, but whatever the server reports about them must
+    # still be a range of the document (inside it, start <= end, no surrogate pair split)
+    if not args.replay:
+        import fcommon
+        thorough = run.tier == "thorough"
+        for bc in fcommon.gen_broken(run, 10 if not thorough else 120, 40):
+            text = fcommon.text_of_lines(bc["lines"])
+            if isinstance(text, bytes):
+                try:
+                    text = text.decode("utf-8")
+                except UnicodeDecodeError:
+                    continue
+            items.append({"kind": "damaged", "files": {"doc.journal": text}, "lex": {"doc.journal": []}, "open": "doc.journal", "ws": False})
     hcs = []
     for i, it in enumerate(items):
         files = dict(it["files"]) if it["kind"] == "workspace" else {}
@@ -446,7 +461,9 @@ def main(args):
             while len(lx) < docs[n].nlines():
                 lx.append([])
             lexs[n] = lx
-        for sig, what in evaluate(docs, lexs, it["open"], res, tally):
+        for sig, what in evaluate(docs, lexs, it["open"], res, tally, generic_only=it["kind"] == "damaged"):
+            if it["kind"] == "damaged":
+                sig = "damaged-input:" + sig
             table[sig] += 1
             run.diverge(sig, what, it, None)
     if os.environ.get("VERIF_TABLE"):
@@ -477,4 +494,5 @@ def confirm(run, d):
         while len(lx) < docs[n].nlines():
             lx.append([])
         lexs[n] = lx
-    return any(sig == d["sig"] for sig, _ in evaluate(docs, lexs, it["open"], res, collections.Counter()))
+    go = it["kind"] == "damaged"
+    return any((("damaged-input:" + sig) if go else sig) == d["sig"] for sig, _ in evaluate(docs, lexs, it["open"], res, collections.Counter(), generic_only=go))
